@@ -3532,8 +3532,15 @@ static void scan_globals(void) {
         before = false;
         continue;
       }
-      if (var2->is_definition && !strcmp(var->name, var2->name) &&
-          (!var2->is_tentative || before))
+      if (!var2->is_definition || strcmp(var->name, var2->name))
+        continue;
+
+      // Of two tentative definitions, the one with the complete type
+      // (`int a[4]` rather than `int a[]`) is the one to keep.
+      bool preferred = before;
+      if ((var2->ty->size < 0) != (var->ty->size < 0))
+        preferred = (var2->ty->size >= 0);
+      if (!var2->is_tentative || preferred)
         break;
     }
 
